@@ -672,6 +672,76 @@ Qed.
 #[export] Hint Resolve to_int_arg_nouerr : nue.
 #[export] Hint Resolve to_int_arg_agr : agr.
 
+(** * Comparisons *)
+
+Lemma liq_eq_ref pol l r : refines (liq_eq pol l r) (liq_eq PDefault l r).
+Proof. unfold liq_eq; ref_tac. Qed.
+Lemma liq_eq_nouerr pol l r : quiet pol -> nouerr (liq_eq pol l r).
+Proof. intro; unfold liq_eq; nue_tac. Qed.
+Lemma liq_eq_agr pol l r : nuP l -> nuP r -> agr T (liq_eq PProbe l r) (liq_eq pol l r).
+Proof.
+  intros Hl Hr. unfold liq_eq.
+  eapply agr_bind; [apply unliquid_agr, Hl|]. intros l' Hl'.
+  eapply agr_bind; [apply unliquid_agr, Hr|]. intros r' Hr'.
+  destruct l'; destruct r'; try (apply agr_ok; exact I); apply py_eq_agr; assumption.
+Qed.
+
+Lemma liq_lt_ref pol l r : refines (liq_lt pol l r) (liq_lt PDefault l r).
+Proof. unfold liq_lt; ref_tac. Qed.
+Lemma liq_lt_nouerr pol l r : quiet pol -> nouerr (liq_lt pol l r).
+Proof. intro; unfold liq_lt; nue_tac. Qed.
+Lemma liq_lt_agr pol l r : nuP l -> nuP r -> agr T (liq_lt PProbe l r) (liq_lt pol l r).
+Proof.
+  intros Hl Hr. unfold liq_lt.
+  eapply agr_bind; [apply unliquid_agr, Hl|]. intros l' Hl'.
+  eapply agr_bind; [apply unliquid_agr, Hr|]. intros r' Hr'.
+  destruct l'; destruct r'; try (apply agr_ok; exact I); apply agr_lerr; discriminate.
+Qed.
+
+Lemma list_contains_ref pol l x : refines (list_contains pol l x) (list_contains PDefault l x).
+Proof. induction l; simpl; ref_tac. Qed.
+Lemma list_contains_nouerr pol l x : quiet pol -> nouerr (list_contains pol l x).
+Proof. intro; induction l; simpl; nue_tac. Qed.
+Lemma list_contains_agr pol l x : nuL l -> nuP x -> agr T (list_contains PProbe l x) (list_contains pol l x).
+Proof.
+  unfold nuL. intros Hl Hx. induction l as [|y l IH]; simpl in *; [agr_tac|].
+  apply andb_true_iff in Hl as [H1 H2].
+  eapply agr_bind; [apply py_eq_agr; assumption|]. intros [] _; [agr_tac|apply IH, H2].
+Qed.
+#[export] Hint Resolve list_contains_ref : ref.
+#[export] Hint Resolve list_contains_nouerr : nue.
+
+Lemma liq_contains_ref pol l r : refines (liq_contains pol l r) (liq_contains PDefault l r).
+Proof. unfold liq_contains; destruct pol; simpl; ref_tac. Qed.
+Lemma liq_contains_nouerr pol l r : quiet pol -> nouerr (liq_contains pol l r).
+Proof. intros [->| ->]; unfold liq_contains; simpl; nue_tac. Qed.
+Lemma liq_contains_agr pol l r : nuP l -> nuP r -> agr T (liq_contains PProbe l r) (liq_contains pol l r).
+Proof.
+  intros Hl Hr. unfold liq_contains. destruct l; try (unfold nuP in Hl; simpl in Hl; discriminate);
+    try (apply agr_lerr; discriminate).
+  - eapply agr_bind; [apply py_str_agr, Hr|]. intros; apply agr_ok; exact I.
+  - apply list_contains_agr; assumption.
+  - destruct r; try (unfold nuP in Hr; simpl in Hr; discriminate);
+      try (apply agr_ok; exact I); apply agr_pyexc.
+Qed.
+#[export] Hint Resolve liq_eq_ref liq_lt_ref liq_contains_ref : ref.
+#[export] Hint Resolve liq_eq_nouerr liq_lt_nouerr liq_contains_nouerr : nue.
+
+Lemma cmp_eval_ref pol op l r : refines (cmp_eval pol op l r) (cmp_eval PDefault op l r).
+Proof. unfold cmp_eval; destruct op; ref_tac. Qed.
+Lemma cmp_eval_nouerr pol op l r : quiet pol -> nouerr (cmp_eval pol op l r).
+Proof. intro; unfold cmp_eval; destruct op; nue_tac. Qed.
+Lemma cmp_eval_agr pol op l r : nuP l -> nuP r -> agr T (cmp_eval PProbe op l r) (cmp_eval pol op l r).
+Proof.
+  intros Hl Hr. unfold cmp_eval; destruct op;
+    try (apply liq_eq_agr; assumption); try (apply liq_lt_agr; assumption);
+    try (apply liq_contains_agr; assumption);
+    (eapply agr_bind; [apply liq_eq_agr; assumption|]; intros [] _;
+     try (apply agr_ok; exact I); apply liq_lt_agr; assumption).
+Qed.
+#[export] Hint Resolve cmp_eval_ref : ref.
+#[export] Hint Resolve cmp_eval_nouerr : nue.
+
 (** * Filters *)
 
 Lemma f_default_ref pol o d a : refines (f_default pol o d a) (f_default PDefault o d a).
@@ -732,17 +802,17 @@ Proof.
   intros Hl Hk Hv. unfold f_where.
   eapply agr_bind; [apply sequence_arg_agr, Hl|]. intros items Hi.
   assert (E1 : agr nuP
-    (do r <- filterM (fun itm => do x <- f_getitem PProbe itm k VNil;; do b <- in_false_none PProbe x;; Ok (negb b)) items;; Ok (VList r))
-    (do r <- filterM (fun itm => do x <- f_getitem pol itm k VNil;; do b <- in_false_none pol x;; Ok (negb b)) items;; Ok (VList r))).
+    (do r <- filterM (fun itm => do x <- f_getitem PProbe itm k VNil;; is_truthy PProbe x) items;; Ok (VList r))
+    (do r <- filterM (fun itm => do x <- f_getitem pol itm k VNil;; is_truthy pol x) items;; Ok (VList r))).
   { eapply agr_bind; [apply filterM_agr_nu; [exact Hi|]|intros r Hr; apply agr_ok; exact Hr].
     intros x Hx. eapply agr_bind; [apply f_getitem_agr; [exact Hx|exact Hk|reflexivity]|].
-    intros y Hy. eapply agr_bind; [apply in_false_none_agr, Hy|]. intros; apply agr_ok; exact I. }
+    intros y Hy. apply is_truthy_agr, Hy. }
   assert (E2 : agr nuP
-    (do r <- filterM (fun itm => do x <- f_getitem PProbe itm k VNil;; py_eq PProbe x v) items;; Ok (VList r))
-    (do r <- filterM (fun itm => do x <- f_getitem pol itm k VNil;; py_eq pol x v) items;; Ok (VList r))).
+    (do r <- filterM (fun itm => do x <- f_getitem PProbe itm k VNil;; liq_eq PProbe x v) items;; Ok (VList r))
+    (do r <- filterM (fun itm => do x <- f_getitem pol itm k VNil;; liq_eq pol x v) items;; Ok (VList r))).
   { eapply agr_bind; [apply filterM_agr_nu; [exact Hi|]|intros r Hr; apply agr_ok; exact Hr].
     intros x Hx. eapply agr_bind; [apply f_getitem_agr; [exact Hx|exact Hk|reflexivity]|].
-    intros y Hy. apply py_eq_agr; assumption. }
+    intros y Hy. apply liq_eq_agr; assumption. }
   destruct v; try exact E1; try exact E2.
 Qed.
 
@@ -751,16 +821,18 @@ Proof.
   unfold f_map. apply refines_bind; [auto with ref|]. intro items.
   apply refines_bind; [|intro; apply refines_refl]. apply mapM_ref. intro itm.
   apply refines_bind; [auto with ref|]. intro s.
-  destruct pol; try apply refines_refl;
-    destruct itm; simpl; try apply refines_refl; try apply refines_lerr.
+  intros a Ha. pose proof (f_getitem_ref pol itm (VStr s) VNil) as H.
+  destruct (f_getitem pol itm (VStr s) VNil) as [v|c p|e|] eqn:E; try discriminate.
+  - inversion Ha; subst. rewrite (H a eq_refl). reflexivity.
+  - destruct e; discriminate.
 Qed.
 Lemma f_map_nouerr pol l k : quiet pol -> nouerr (f_map pol l k).
 Proof.
   intro Q. unfold f_map. apply nouerr_bind; [auto with nue|]. intro items.
   apply nouerr_bind; [|intro; apply nouerr_ok]. apply mapM_nouerr. intro itm.
   apply nouerr_bind; [auto with nue|]. intro s.
-  pose proof (py_getitem_nouerr pol itm (VStr s) Q) as H.
-  destruct (py_getitem pol itm (VStr s)) as [v|c p|e|]; nue_tac; try exact H.
+  pose proof (f_getitem_nouerr pol itm (VStr s) VNil Q) as H.
+  destruct (f_getitem pol itm (VStr s) VNil) as [v|c p|e|]; nue_tac; try exact H.
 Qed.
 Lemma f_map_agr pol l k : nuP l -> nuP k -> agr nuP (f_map PProbe l k) (f_map pol l k).
 Proof.
@@ -768,11 +840,11 @@ Proof.
   eapply agr_bind; [apply sequence_arg_agr, Hl|]. intros items Hi.
   eapply agr_bind; [apply mapM_agr_nu; [exact Hi|]|intros r Hr; apply agr_ok; exact Hr].
   intros x Hx. eapply agr_bind; [apply py_str_agr, Hk|]. intros s _.
-  destruct (py_getitem_agr pol x (VStr s) Hx eq_refl) as [-> [Hn HP]].
-  destruct (py_getitem PProbe x (VStr s)) as [v|c p|e|].
+  destruct (f_getitem_agr pol x (VStr s) VNil Hx eq_refl eq_refl) as [-> [Hn HP]].
+  destruct (f_getitem PProbe x (VStr s) VNil) as [v|c p|e|].
   - apply agr_ok, HP; reflexivity.
   - apply agr_same; [exact Hn|intros; discriminate].
-  - destruct e; try apply agr_pyexc. destruct (has_getitem x); [apply agr_pyexc|apply agr_lerr; discriminate].
+  - destruct e; try apply agr_pyexc. apply agr_lerr; discriminate.
   - apply agr_oof.
 Qed.
 
@@ -836,6 +908,7 @@ Proof.
                          | PyExc TypeError =>
                              do _ <- match k with VUndef _ => poke pol DStr | _ => Ok tt end;;
                              LErr LiquidTypeError None
+                         | PyExc KeyError => Ok false
                          | Ok x => Ok (negb (is_nil x))
                          | LErr c p => LErr c p
                          | PyExc e => PyExc e
@@ -864,7 +937,7 @@ Proof.
        destruct (py_getitem PProbe x kk) as [v|c p|e|] end;
      [apply agr_ok; exact I
      |apply agr_same; [eapply nomiss_retype; exact Hn|intros; discriminate]
-     |destruct e; try apply agr_pyexc; simpl; apply agr_lerr; discriminate
+     |destruct e; try apply agr_pyexc; simpl; try (apply agr_ok; exact I); apply agr_lerr; discriminate
      |apply agr_oof]).
 Qed.
 
@@ -1040,76 +1113,6 @@ Proof.
   all: try (eapply agr_bind; [apply sequence_arg_agr; assumption|]; intros items Hi; apply agr_ok;
             unfold nuP, nuL in *; simpl; rewrite forallb_rev'; exact Hi).
 Qed.
-
-(** * Comparisons *)
-
-Lemma liq_eq_ref pol l r : refines (liq_eq pol l r) (liq_eq PDefault l r).
-Proof. unfold liq_eq; ref_tac. Qed.
-Lemma liq_eq_nouerr pol l r : quiet pol -> nouerr (liq_eq pol l r).
-Proof. intro; unfold liq_eq; nue_tac. Qed.
-Lemma liq_eq_agr pol l r : nuP l -> nuP r -> agr T (liq_eq PProbe l r) (liq_eq pol l r).
-Proof.
-  intros Hl Hr. unfold liq_eq.
-  eapply agr_bind; [apply unliquid_agr, Hl|]. intros l' Hl'.
-  eapply agr_bind; [apply unliquid_agr, Hr|]. intros r' Hr'.
-  destruct l'; destruct r'; try (apply agr_ok; exact I); apply py_eq_agr; assumption.
-Qed.
-
-Lemma liq_lt_ref pol l r : refines (liq_lt pol l r) (liq_lt PDefault l r).
-Proof. unfold liq_lt; ref_tac. Qed.
-Lemma liq_lt_nouerr pol l r : quiet pol -> nouerr (liq_lt pol l r).
-Proof. intro; unfold liq_lt; nue_tac. Qed.
-Lemma liq_lt_agr pol l r : nuP l -> nuP r -> agr T (liq_lt PProbe l r) (liq_lt pol l r).
-Proof.
-  intros Hl Hr. unfold liq_lt.
-  eapply agr_bind; [apply unliquid_agr, Hl|]. intros l' Hl'.
-  eapply agr_bind; [apply unliquid_agr, Hr|]. intros r' Hr'.
-  destruct l'; destruct r'; try (apply agr_ok; exact I); apply agr_lerr; discriminate.
-Qed.
-
-Lemma list_contains_ref pol l x : refines (list_contains pol l x) (list_contains PDefault l x).
-Proof. induction l; simpl; ref_tac. Qed.
-Lemma list_contains_nouerr pol l x : quiet pol -> nouerr (list_contains pol l x).
-Proof. intro; induction l; simpl; nue_tac. Qed.
-Lemma list_contains_agr pol l x : nuL l -> nuP x -> agr T (list_contains PProbe l x) (list_contains pol l x).
-Proof.
-  unfold nuL. intros Hl Hx. induction l as [|y l IH]; simpl in *; [agr_tac|].
-  apply andb_true_iff in Hl as [H1 H2].
-  eapply agr_bind; [apply py_eq_agr; assumption|]. intros [] _; [agr_tac|apply IH, H2].
-Qed.
-#[export] Hint Resolve list_contains_ref : ref.
-#[export] Hint Resolve list_contains_nouerr : nue.
-
-Lemma liq_contains_ref pol l r : refines (liq_contains pol l r) (liq_contains PDefault l r).
-Proof. unfold liq_contains; destruct pol; simpl; ref_tac. Qed.
-Lemma liq_contains_nouerr pol l r : quiet pol -> nouerr (liq_contains pol l r).
-Proof. intros [->| ->]; unfold liq_contains; simpl; nue_tac. Qed.
-Lemma liq_contains_agr pol l r : nuP l -> nuP r -> agr T (liq_contains PProbe l r) (liq_contains pol l r).
-Proof.
-  intros Hl Hr. unfold liq_contains. destruct l; try (unfold nuP in Hl; simpl in Hl; discriminate);
-    try (apply agr_lerr; discriminate).
-  - eapply agr_bind; [apply py_str_agr, Hr|]. intros; apply agr_ok; exact I.
-  - apply list_contains_agr; assumption.
-  - destruct r; try (unfold nuP in Hr; simpl in Hr; discriminate);
-      try (apply agr_ok; exact I); apply agr_pyexc.
-Qed.
-#[export] Hint Resolve liq_eq_ref liq_lt_ref liq_contains_ref : ref.
-#[export] Hint Resolve liq_eq_nouerr liq_lt_nouerr liq_contains_nouerr : nue.
-
-Lemma cmp_eval_ref pol op l r : refines (cmp_eval pol op l r) (cmp_eval PDefault op l r).
-Proof. unfold cmp_eval; destruct op; ref_tac. Qed.
-Lemma cmp_eval_nouerr pol op l r : quiet pol -> nouerr (cmp_eval pol op l r).
-Proof. intro; unfold cmp_eval; destruct op; nue_tac. Qed.
-Lemma cmp_eval_agr pol op l r : nuP l -> nuP r -> agr T (cmp_eval PProbe op l r) (cmp_eval pol op l r).
-Proof.
-  intros Hl Hr. unfold cmp_eval; destruct op;
-    try (apply liq_eq_agr; assumption); try (apply liq_lt_agr; assumption);
-    try (apply liq_contains_agr; assumption);
-    (eapply agr_bind; [apply liq_eq_agr; assumption|]; intros [] _;
-     try (apply agr_ok; exact I); apply liq_lt_agr; assumption).
-Qed.
-#[export] Hint Resolve cmp_eval_ref : ref.
-#[export] Hint Resolve cmp_eval_nouerr : nue.
 
 (** * Lookup *)
 
@@ -1541,7 +1544,7 @@ Section BlocksC.
       { destruct limit as [le|]; [|apply agree_ok; exact Hitems].
         eapply agree_bind; [apply He, Hc|]. intros lv Hlv.
         eapply agree_bind; [apply agr_agree, to_int_arg_agr, Hlv|]. intros n _.
-        destruct (n <? 0); [apply agr_agree, agr_pyexc|]. apply agree_ok. apply forallb_firstn, Hitems. }
+        apply agree_ok. apply forallb_firstn, Hitems. }
       intros items' Hitems'. destruct items' as [|i0 items']; [apply opt_run_agree, Hc|].
       destruct (Nat.ltb _ _); [apply agr_agree, agr_lerr; discriminate|].
       apply for_loop_agree; assumption.
@@ -1837,11 +1840,11 @@ Section SimBlocks.
       apply rel_res_same. intro itv. apply rel_res_same. intro items.
       assert (Hlim : match limit with
                      | Some le => do lv <- ev c1 le;; do n <- to_int_arg pol lv;;
-                                  if n <? 0 then PyExc ValueError else Ok (firstn (Z.to_nat n) items)
+                                  Ok (firstn (Z.to_nat n) items)
                      | None => Ok items end
                    = match limit with
                      | Some le => do lv <- ev c2 le;; do n <- to_int_arg pol lv;;
-                                  if n <? 0 then PyExc ValueError else Ok (firstn (Z.to_nat n) items)
+                                  Ok (firstn (Z.to_nat n) items)
                      | None => Ok items end).
       { destruct limit as [le|]; [|reflexivity]. rewrite (Hev c1 c2 le Hc); [reflexivity|]. eapply incl_app_l; exact Hi. }
       rewrite Hlim. apply incl_app_r in Hi. apply rel_res_same. intros [|i0 items'].
